@@ -32,14 +32,10 @@ pub fn mat_to_sexp(m: &Matrix) -> Sexp {
     Sexp::List(v)
 }
 
-/// Projection of a gate parameter: what `gate_matrix` sees, i.e. `into_simplified()` — a `Number` or anything
-/// else. (For a `Number` literal this is the literal itself; parameters parsed from Quil text such as `2*pi`
-/// reach the model as the number the real simplifier computed.)
+/// A gate parameter crosses the wire as the expression itself (`(expr E)`, shared ExprWire format); the Lean
+/// model evaluates it with the shared expression model and decides constant / non-constant on its own.
 pub fn param_to_sexp(e: &Expression) -> Sexp {
-    match e.clone().into_simplified() {
-        Expression::Number(c) => tagged("num", vec![f64bits(c.re), f64bits(c.im)]),
-        _ => tagged("other", vec![]),
-    }
+    tagged("expr", vec![crate::expr::expr_to_sexp(e)])
 }
 
 pub fn qubit_to_sexp(q: &Qubit) -> Sexp {
@@ -300,4 +296,99 @@ pub fn modified_raw(
     let mut qubits: Vec<Qubit> = extra.iter().map(|q| Qubit::Fixed(*q)).collect();
     qubits.extend(base_qubits.iter().map(|q| Qubit::Fixed(*q)));
     Gate { name: name.to_string(), parameters: params, qubits, modifiers: stack.to_vec() }
+}
+
+/// The same constant VALUE `v` written in every expression form the AST allows (built through the API, not the
+/// parser — the parser never produces unary plus): literal, prefix minus / plus, nested prefixes, an infix of
+/// constants for every operator, a function call of a constant for every function, `pi` forms, complex literals
+/// with zero / signed-zero / tiny imaginary part, and combinations up to depth 3.
+pub fn constant_forms(v: f64) -> Vec<Expression> {
+    use crate::expr::{call, infix, num, prefix, real as r};
+    use quil_rs::expression::{ExpressionFunction as F, InfixOperator as I, PrefixOperator as P};
+    let pi = || Expression::PiConstant();
+    let plus = |e| prefix(P::Plus, e);
+    let minus = |e| prefix(P::Minus, e);
+    vec![
+        r(v),
+        minus(r(-v)),
+        plus(r(v)),
+        minus(plus(r(-v))),
+        plus(minus(r(-v))),
+        plus(plus(r(v))),
+        minus(minus(r(v))),
+        plus(minus(plus(r(-v)))),
+        infix(r(v - 0.25), I::Plus, r(0.25)),
+        infix(r(v + 0.25), I::Minus, r(0.25)),
+        infix(r(v / 2.0), I::Star, r(2.0)),
+        infix(r(v * 2.0), I::Slash, r(2.0)),
+        infix(r(v), I::Caret, r(1.0)),
+        infix(r(v), I::Star, infix(r(2.0), I::Caret, r(0.0))),
+        infix(call(F::Cosine, r(0.0)), I::Star, r(v)),
+        infix(call(F::Sine, r(0.0)), I::Plus, r(v)),
+        infix(call(F::Exponent, r(0.0)), I::Star, r(v)),
+        infix(call(F::SquareRoot, r(4.0)), I::Star, r(v / 2.0)),
+        infix(call(F::Cis, r(0.0)), I::Star, r(v)),
+        infix(infix(r(v), I::Slash, pi()), I::Star, pi()),
+        infix(pi(), I::Star, r(v / std::f64::consts::PI)),
+        plus(infix(r(v - 0.5), I::Plus, r(0.5))),
+        minus(infix(r(0.5), I::Minus, r(v + 0.5))),
+        infix(plus(r(v + 1.0)), I::Minus, plus(r(1.0))),
+        infix(plus(r(v / 2.0)), I::Star, minus(r(-2.0))),
+        minus(call(F::SquareRoot, infix(r(v), I::Star, r(v)))), // = -|v|
+        plus(call(F::SquareRoot, infix(r(v), I::Star, r(v)))),  // = +|v|
+        call(F::Sine, plus(r(v))),                              // some other real value
+        plus(call(F::Cosine, minus(r(v)))),
+        num(v, 0.0),
+        num(v, -0.0),
+        num(v, 1e-300),
+        num(v, 1e-17),
+        plus(num(v, -0.0)),
+    ]
+}
+
+/// `pi` itself and signed multiples, as the AST writes them.
+pub fn pi_forms() -> Vec<Expression> {
+    use crate::expr::{infix, prefix, real as r};
+    use quil_rs::expression::{InfixOperator as I, PrefixOperator as P};
+    let pi = || Expression::PiConstant();
+    vec![
+        pi(),
+        prefix(P::Minus, pi()),
+        prefix(P::Plus, pi()),
+        prefix(P::Plus, prefix(P::Minus, pi())),
+        infix(r(2.0), I::Star, pi()),
+        prefix(P::Plus, infix(pi(), I::Slash, r(2.0))),
+        infix(pi(), I::Minus, pi()),
+        infix(prefix(P::Plus, pi()), I::Slash, r(4.0)),
+    ]
+}
+
+/// Parameters that are NOT constant: `to_unitary` must reject them (`MatrixNonConstantParams`).
+pub fn nonconstant_forms() -> Vec<Expression> {
+    use crate::expr::{addr, call, infix, prefix, real as r, var};
+    use quil_rs::expression::{ExpressionFunction as F, InfixOperator as I, PrefixOperator as P};
+    vec![
+        var("theta"),
+        addr("ro", 0),
+        prefix(P::Minus, var("theta")),
+        prefix(P::Plus, addr("ro", 1)),
+        infix(var("theta"), I::Plus, r(0.5)),
+        infix(r(2.0), I::Star, addr("ro", 0)),
+        call(F::Cosine, var("theta")),
+    ]
+}
+
+/// Random constant trees of depth ≤ 3 over a small leaf alphabet whose value (by quil-rs's own evaluator, used here
+/// only as a filter) is finite, real and of moderate size.
+pub fn random_constant_expr(rng: &mut Rng) -> Expression {
+    use crate::expr::{random_expr, real as r, Alphabet};
+    let alphabet = Alphabet::full(vec![r(0.7), r(-1.3), r(2.0), r(0.5), r(1.0), r(3.0), Expression::PiConstant(), r(0.0)]);
+    loop {
+        let e = random_expr(rng, &alphabet, 3);
+        if let Ok(z) = e.evaluate(&std::collections::HashMap::<String, Complex64>::new(), &std::collections::HashMap::<&str, Vec<f64>>::new()) {
+            if z.re.is_finite() && z.im == 0.0 && z.re.abs() < 1e3 {
+                return e;
+            }
+        }
+    }
 }
